@@ -84,12 +84,12 @@ const (
 )
 
 type c14Spec struct {
-	Prog   int  `json:"prog"`
-	Input  int  `json:"input"`
-	Sel    int  `json:"sel"`
-	Source int  `json:"source"`
-	Out    int  `json:"out"`
-	DashF  bool `json:"dash_f"`
+	Prog   int      `json:"prog"`
+	Input  int      `json:"input"`
+	Sel    int      `json:"sel"`
+	Source int      `json:"source"`
+	Out    int      `json:"out"`
+	DashF  bool     `json:"dash_f"`
 	Argv   []string `json:"argv,omitempty"`
 }
 
@@ -393,8 +393,8 @@ func init() {
 		Rule: "the full product {inline, -f} x {stdin, one file, two files, a missing file, a directory as file, the same file twice, /dev/stdin as a named file, a named pipe filled after it is opened, a /proc file whose reported size is 0} x {no selector, one, two, a failing one, an index past the end} x {no -o, -o -, -o FILE, -o into a missing directory} x 17 programs (printf without a final newline, empty, replacing $, silent, printing, mutating $, BEGINFILE replacing $, exit, syntax error, runtime error before / after output, $file, END, exit in BEGIN, state across values, CR LF / lone CR / LF CR inside literals and between statements) x 8 inputs (array, object, scalar, two values, empty, malformed, strings full of % directives, a byte order mark before the document), on the real binary; " +
 			"oracle: the in-process library run of the same program, selectors and inputs (stdout, outcome, JSON output) plus the wrapper laws (exit 0 iff success and nothing refused, diagnostic on stderr otherwise, no stack trace, -o FILE == bytes of -o -, a missing file refused before any output); " +
 			"-r E1 -r E2 == -r E1 followed by -r E2 for 4 stateless (mutating) programs x 2 documents x all ordered pairs of 5 overlapping selectors; and -r E == BEGINFILE { $ = E } for every program without BEGINFILE/ENDFILE x every input x 12 selectors (three end in an index past the end or under a missing member, three call num / json / a method); thorough doubles the three alphabets; a state is (source, -o mode, selector list, -f, library outcome); non-trivial = same",
-		Plan:  func(t fw.Tier) int { return 2 * c14NSource * c14NOut },
-		Bound: func(t fw.Tier) string { return "full configuration product" },
+		Plan:        func(t fw.Tier) int { return 2 * c14NSource * c14NOut },
+		Bound:       func(t fw.Tier) string { return "full configuration product" },
 		Assumptions: []string{"the library run through mc/drive is the reference (its own correctness is the business of the other properties)", "when nothing was decoded, -o may either refuse or write nothing"},
 		Run: func(c *fw.Ctx, u int) {
 			al := c14Alphabet(c.Thorough())
@@ -415,7 +415,9 @@ func init() {
 						for _, e1 := range c14ConcatSels {
 							for _, e2 := range c14ConcatSels {
 								prog, in, e1, e2 := prog, in, e1, e2
-								c.Do(func() any { return map[string]string{"form": "selconcat", "prog": prog, "input": in, "sel": e1, "sel2": e2} }, func() *fw.Violation { return c14SelectorConcat(c, prog, in, e1, e2) })
+								c.Do(func() any {
+									return map[string]string{"form": "selconcat", "prog": prog, "input": in, "sel": e1, "sel2": e2}
+								}, func() *fw.Violation { return c14SelectorConcat(c, prog, in, e1, e2) })
 							}
 						}
 					}
